@@ -228,6 +228,27 @@ func isFieldOrStoredInto(v ssa.Value, field string) bool {
 	return false
 }
 
+// returnsFreshFrom: f is a library function all of whose returns hand back (as first result) the one object it
+// created by calling the constructor named ctor; returns that object (the call), or nil.
+func returnsFreshFrom(f *ssa.Function, ctor string) ssa.Value {
+	if f == nil || f.Blocks == nil || f.Signature.Results().Len() == 0 {
+		return nil
+	}
+	var obj ssa.Value
+	for _, ret := range ir.Returns(f) {
+		v := ir.SeeThrough(ir.ReturnOperand(ret, 0))
+		call, ok := v.(*ssa.Call)
+		if !ok || call.Common().StaticCallee() == nil || call.Common().StaticCallee().Name() != ctor {
+			return nil
+		}
+		if obj != nil && obj != v {
+			return nil
+		}
+		obj = v
+	}
+	return obj
+}
+
 // sessionConnectAndWill: T5 {Cmsg, Will} and T6 (will mapping) in package sessions.
 func (c *Ctx) sessionConnectAndWill() {
 	c.R.Rule("T6-will-mapping", "the will PUBLISH is built from the stored CONNECT with all four of QoS, topic, payload and retain flag, each from the matching getter.")
@@ -272,7 +293,15 @@ func (c *Ctx) sessionConnectAndWill() {
 					return true
 				}
 				call, ok := ir.SeeThrough(st.Val).(*ssa.Call)
-				return ok && call.Common().StaticCallee() != nil && call.Common().StaticCallee().Name() == fresh
+				if !ok || call.Common().StaticCallee() == nil {
+					return false
+				}
+				if call.Common().StaticCallee().Name() == fresh {
+					return true
+				}
+				// a constructor helper of the package (`s.Will = newWillMessage(s.Cmsg)`): every return hands back the
+				// object it created with the fresh constructor
+				return returnsFreshFrom(call.Common().StaticCallee(), fresh) != nil
 			}
 		}
 		okPaths := Assume{"err:*": false}
@@ -318,6 +347,14 @@ func (c *Ctx) sessionConnectAndWill() {
 							}
 						}
 					}
+					// or: we are in a constructor helper whose result is stored into Session.Will by its caller
+					if !isWillObj && n.F != nil && n.F.Parent != nil && n.F.Site != nil {
+						if obj := returnsFreshFrom(n.F.Fn, "NewPublishMessage"); obj != nil && obj == recv {
+							if sv, ok := n.F.Site.(ssa.Value); ok {
+								isWillObj = isFieldOrStoredInto(sv, "Will")
+							}
+						}
+					}
 					if !isWillObj {
 						return false
 					}
@@ -326,7 +363,7 @@ func (c *Ctx) sessionConnectAndWill() {
 				if !ok || !ir.IsMethod(gc.Common(), pkgMessage, "ConnectMessage", getter) {
 					return false
 				}
-				return isFieldOrStoredInto(gc.Common().Args[0], "Cmsg")
+				return isFieldOrStoredInto(frameValue(n.F, gc.Common().Args[0]), "Cmsg")
 			}
 			key := fmt.Sprintf("%s:will.%s(Cmsg.%s())", fn.Name(), setter, getter)
 			if p := mustPass(g, entry, m, withWill); p != nil {
